@@ -41,6 +41,10 @@ CHECKS = {
  "C14": ("opspace", "exhaustive enumeration of all token strings up to a length bound (language membership against a hand-written recogniser) and of a finite Decimal x verb x flag x width product against an independent formatter",
          "String/Text byte-for-byte against an independent to-scientific-string formatter on the text space; Format under 13 verbs x 32 flag subsets x 17 widths; parser language membership for every string of <= 5 (6 thorough) tokens over a 29-token alphabet, multi-token combinations, all single and bounded double edits of 39 grammatical seeds and the exponent-limit family, through five entry points that must agree.",
          "The recogniser and formatter are written from the GDA text; the string space is bounded by length.", "4/C14"),
+
+ "C17": ("opspace", "exhaustive enumeration of boundary families (int64 edges x powers of ten, float64 values/midpoints/perturbations, DENSE+EDGE for Modf) on the real code against exact rational arithmetic",
+         "Int64 on floor(2^63/10^k)+-2 x trailing zeros x boundary-crossing exponents x signs (never a wrapped value), constructors on the int64 boundary set, Float64 against big.Rat nearest-even on exact float values, float midpoints and +-1-unit perturbations and the overflow/underflow thresholds, Modf on DENSE(3,6)+EDGE with either output nil.",
+         "big.Rat.Float64 is the nearest-even reference.", "4/C17"),
 }
 
 NOT_YET = {}
